@@ -54,7 +54,8 @@ class Folder:
         if bind:
             key = pp(t)
             if key in bind:
-                return _c(bind[key])
+                b = bind[key]
+                return b if isinstance(b, tuple) and b and b[0] in ("agg", "const", "ref") else _c(b)
         k = t[0]
         if k == "const":
             return t
@@ -91,6 +92,15 @@ class Folder:
         if k == "as":
             return self.ev(t[1], env, bind, depth)
         if k == "agg":
+            if t[1] == "closure":
+                # captures are evaluated leniently: a closure that is never applied (or does not use a capture) must not make the fold fail
+                caps = []
+                for x in t[4]:
+                    try:
+                        caps.append(self.ev(x, env, bind, depth))
+                    except Unknown:
+                        caps.append(("opaque", pp(x)[:80]))
+                return t[:4] + (tuple(caps),) + t[5:]
             return t[:4] + (tuple(self.ev(x, env, bind, depth) for x in t[4]),) + t[5:]
         if k == "cast":
             x = self.ev(t[1], env, bind, depth)
@@ -351,7 +361,76 @@ def _try_from_int(target):
     return f
 
 
+def _call_closure(self, clo, args):
+    """apply a folded closure value to folded arguments (the environment is passed by reference or by value as the closure's own MIR says)"""
+    c = clo[1] if clo[0] == "ref" else clo
+    if not (c[0] == "agg" and c[1] == "closure" and self.prog.has(c[2])):
+        raise Unknown("not a closure value: " + pp(clo)[:60])
+    m = self.prog.fn(c[2])["mir"]
+    env_ty = self.prog.ty_s(m["locals"][1])
+    env = ("ref", c) if env_ty.startswith("&") else c
+    return self.call(c[2], [env] + list(args), 1)
+
+
+def _is_opt(v):
+    return v[0] == "agg" and v[1] == "adt" and v[3] in ("Some", "None")
+
+
+def _opt_and_then(self, args):
+    o, f = args
+    if not _is_opt(o):
+        raise Unknown("and_then on non-constant option")
+    return o if o[3] == "None" else _call_closure(self, f, [o[4][0]])
+
+
+def _opt_map(self, args):
+    o, f = args
+    if not _is_opt(o):
+        raise Unknown("map on non-constant option")
+    return o if o[3] == "None" else _opt(True, _call_closure(self, f, [o[4][0]]))
+
+
+def _opt_map_or(self, args):
+    o, d, f = args
+    if not _is_opt(o):
+        raise Unknown("map_or on non-constant option")
+    return d if o[3] == "None" else _call_closure(self, f, [o[4][0]])
+
+
+def _opt_ok_or(self, args):
+    o, e = args
+    if not _is_opt(o):
+        raise Unknown("ok_or on non-constant option")
+    if o[3] == "None":
+        return ("agg", "adt", "std::result::Result", "Err", (e,), 1)
+    return ("agg", "adt", "std::result::Result", "Ok", (o[4][0],), 0)
+
+
+def _opt_or(self, args):
+    a, b = args
+    if not _is_opt(a):
+        raise Unknown("or on non-constant option")
+    return b if a[3] == "None" else a
+
+
+def _opt_is(which):
+    def f(self, args):
+        o = args[0][1] if args[0][0] == "ref" else args[0]
+        if not _is_opt(o):
+            raise Unknown("is_some on non-constant option")
+        return _c(o[3] == which)
+    return f
+
+
 STD_MODELS = {
+    "<std::result::Result<T, F> as std::ops::FromResidual<std::result::Result<std::convert::Infallible, E>>>::from_residual": _from_residual,
+    "std::option::Option::<T>::and_then": _opt_and_then,
+    "std::option::Option::<T>::map": _opt_map,
+    "std::option::Option::<T>::map_or": _opt_map_or,
+    "std::option::Option::<T>::ok_or": _opt_ok_or,
+    "std::option::Option::<T>::or": _opt_or,
+    "std::option::Option::<T>::is_some": _opt_is("Some"),
+    "std::option::Option::<T>::is_none": _opt_is("None"),
     "std::result::Result::<T, E>::ok": _result_ok,
     "<std::option::Option<T> as std::ops::Try>::branch": _try_branch,
     "<std::result::Result<T, E> as std::ops::Try>::branch": _try_branch,
